@@ -206,3 +206,80 @@ def _render_nest(t):
         opens.append(o)
         closes.append(c)
     return "".join(opens) + core + "".join(reversed(closes))
+
+
+# ------------------------------------------------------------------ C19
+# The structured grammar of the round-trip property: sections, * / # lists,
+# tables, bold / italic, links, templates, parser functions and HTML elements
+# with URL-safe attribute values.
+
+
+def rt_inline(depth=3):
+    """Balanced inline markup: bold may contain italic (never bold), italic
+    contains neither; quote runs of different constructs are never adjacent
+    except as the regular bold-italic nesting."""
+    targ = st.one_of(
+        plain,
+        st.tuples(st.sampled_from(["k", "n1", "2"]), plain).map(
+            lambda kv: f"{kv[0]}={kv[1]}"),
+        st.tuples(word, plain).map(lambda t: f"[[{t[0]}|{t[1]}]]"),
+        st.tuples(st.sampled_from(TEMPLATE_NAMES), plain).map(
+            lambda t: "{{" + t[0] + "|" + t[1] + "}}"),
+    )
+    template = st.tuples(st.sampled_from(TEMPLATE_NAMES),
+                         st.lists(targ, max_size=3)).map(
+        lambda t: "{{" + "|".join([t[0]] + t[1]) + "}}")
+    pfn = st.tuples(st.sampled_from(["#if", "#ifeq", "lc", "#expr"]),
+                    st.lists(targ, min_size=1, max_size=3)).map(
+        lambda t: "{{" + t[0] + ":" + "|".join(t[1]) + "}}")
+    span = st.tuples(st.sampled_from(PAIRED_INLINE_TAGS), attrs(), plain,
+                     st.integers(0, 2)).map(
+        lambda t: f"<{t[0]}"
+        + ((" " + render_attrs(t[1], t[3])) if t[1] else "")
+        + f">{t[2]}</{t[0]}>")
+    link_plain = st.tuples(word, st.lists(plain, max_size=3)).map(
+        lambda t: "[[" + "|".join([t[0]] + t[1]) + "]]")
+    magic = st.sampled_from(["{{PAGENAME}}", "{{NAMESPACE}}", "{{!}}"])
+    empty_el = st.tuples(st.sampled_from(["span", "div", "br", "td"]),
+                         attrs(2)).map(
+        lambda t: f"<{t[0]}"
+        + ((" " + render_attrs(t[1])) if t[1] else "")
+        + (">" if t[0] == "br" else f"></{t[0]}>"))
+    l0 = st.one_of(plain, plain, template, pfn, span, link_plain, magic,
+                   empty_el)
+
+    def seq(item):
+        return st.lists(item, min_size=1, max_size=3).map(" ".join)
+
+    italic = seq(l0).map(lambda s: f"''{s}''")
+    bold = seq(st.one_of(l0, l0, italic)).map(lambda s: f"'''{s}'''")
+    link_fancy = st.tuples(word, seq(st.one_of(plain, template))).map(
+        lambda t: f"[[{t[0]}|''{t[1]}'']]")
+    span_fancy = st.tuples(st.sampled_from(PAIRED_INLINE_TAGS), attrs(),
+                           seq(st.one_of(l0, italic, bold))).map(
+        lambda t: f"<{t[0]}"
+        + ((" " + render_attrs(t[1])) if t[1] else "") + f">{t[2]}</{t[0]}>")
+    return seq(st.one_of(l0, l0, italic, bold, link_fancy, span_fancy))
+
+
+def rt_block(depth=3):
+    inl = rt_inline(depth)
+    heading = st.tuples(st.integers(1, 6), inl).map(
+        lambda t: "=" * t[0] + " " + t[1] + " " + "=" * t[0]
+    )
+    para = st.lists(inl, min_size=1, max_size=3).map("\n".join)
+    blocktag = st.tuples(st.sampled_from(BLOCK_TAGS), attrs(), inl).map(
+        lambda t: f"<{t[0]}"
+        + ((" " + render_attrs(t[1])) if t[1] else "")
+        + f">{t[2]}</{t[0]}>"
+    )
+    return st.one_of(heading, heading, para, list_block(inl), list_block(inl),
+                     table_block(inl), blocktag)
+
+
+def rt_document(depth=3, max_blocks=7):
+    sep = st.sampled_from(["\n", "\n\n"])
+    return st.lists(st.tuples(rt_block(depth), sep), min_size=1,
+                    max_size=max_blocks).map(
+        lambda bs: "".join(b + s for b, s in bs)
+    )
